@@ -68,7 +68,17 @@ def run(ctx):
     # the within-macrovector argument measures the distances against the highest-severity vector the
     # search selects: the search facts it starts from are discharged here (rules keep their C02 names)
     R4.check_search(ctx, led, om4)
-    R4.check_tail(ctx, led, om4)
+    R4.check_tail(ctx, led, om4, own_tables=True)
+    # ... and that the digits are the specification's classifiers and the highest-severity vectors of
+    # a class are interchangeable (same level sum, every member dominated): the step table below is
+    # built on these
+    try:
+        R4.check_eq(ctx, led, om4)
+    except R4.AnalysisError as e:
+        if e.rule != "C02.eq.total":
+            raise
+        led.violation("C02.eq", "CVSS4.macroVector::totality", "cvss/cvss4.py", "a classifier chain of macroVector() is not total (%s)" % e.message)
+    R4.check_cross_derivation(ctx, led, om4)
     led.ok("C14.within", "CVSS4 score inside one macrovector", "cvss/cvss4.py", "value - mean(a_i*d_i/(D_i*0.1)) with a_i >= 0 (lookup monotone), D_i > 0 (depth tables): non-increasing in every distance")
     total_cert = 0
     for v in (2, 3):
@@ -85,4 +95,7 @@ def run(ctx):
                 % (key, len(lst), lst[0][0] or "all", "; ".join(lst[0][1]) or "non-monotone sub-term"),
             )
     led.require_min("C14.compose", total_cert, 50, "monotonicity certificates derived")
-    led.undecided("C14.v4.cross", "monotonicity across v4 macrovector boundaries depends on the numbers (interpolated score vs every score of the next-lower class)")
+    ncmp = R4.check_cross_monotone(ctx, led)
+    if ncmp:
+        led.require_min("C14.v4.cross", ncmp, 100000, "v4 signature-step comparisons")
+    led.undecided("C14.v4.float", "the v4 step table is evaluated in exact rationals with half-up rounding; that binary floating point plus EPSILON gives the same tenths is C02's undecided numeric clause")
